@@ -11,7 +11,7 @@ CFG = {'harness': 'apps',
          'byte cuts / word cuts / around element boundaries / one byte per bank, empty banks kept), banks of different '
          'boards interleaved, grouped into Chronobox events (id 4; 0..6 banks; BANK16/BANK32/BANK32A; BYTE/WORD/DWORD) '
          'with decoy banks (CBF5, CBF0, cbf1, ATAT, …) and decoy events of other ids carrying CBFn banks, spread '
-         'over 1..=3 files of one run with contiguous timestamps, file arguments shuffled. single faults: dropped '
+         'over 1..=3 files (.mid or .mid.lz4) of one run with contiguous timestamps, file arguments shuffled. single faults: dropped '
          'marker, duplicated marker, truncated tail (byte level), corrupted word (byte replaced, bit flipped, invalid '
          'top byte). structural cases: no Chronobox bank, empty board, F4 witness (last timestamp of the stream), '
          'no marker, first marker not counter 0, counter 0 later / twice, counter-0 marker with top bit set, equal top '
